@@ -119,6 +119,16 @@ TRIGGERS = {
  "X-C17": ("C17", "App::wasm_sudo without its outer cache (third time, written against C17): a module failing late in a tree started by wasm_sudo does not abort what came before"),
  "X-C18": ("C18", "addr_make returns its input unchanged when that is already a valid address of the codec: the names n and addr_make(n) give the same address"),
  "X-C19": ("C19", "addr_canonicalize caches decoded strings in a thread-local map keyed without the checksum variant: a Bech32 and a Bech32m Api with the same prefix on one thread accept each other's addresses after the first has seen them"),
+ "Y-C01": ("C01", "MergeOverlay: a pending overwrite of a key the backing store holds no longer hides the backing record in range (only deletes do): a later message of one execute_multi that enumerates storage sees the key twice, new value then old (breaks 'each seeing its predecessors' effects')"),
+ "Y-C02": ("C02", "ContractWrapper::with_migrate_empty drops the reply entry point (W-C20 again, written against C02): a lifted contract built reply-then-migrate cannot absorb a failure"),
+ "Y-C03": ("C03", "execute_submsg: 'fast path for plain messages' chosen by id == 0 instead of reply_on Never: no reply for a sub-message with id 0, a failure with Error/Always aborts the caller"),
+ "Y-C04": ("C04", "execute_submsg's error arm keeps only the events of the reply and returns data None: data set by a reply that handled a FAILED sub-message no longer replaces the caller's data"),
+ "Y-C05": ("C05", "WasmKeeper::get_env builds the Env from mock_env() and carries over only height and time: contracts are always told the default chain id"),
+ "Y-C06": ("C06", "StorageTransaction::range returns the base iterator directly when no pending change lies within the bounds, testing start >= greatest pending key (should be >): a range starting exactly at the greatest pending key ignores that key's pending entry"),
+ "Y-C07": ("C07", "PrefixedStorage (mutable view only) swaps inverted bounds of a descending range: range(Some(hi), Some(lo), Descending) returns [lo, hi) instead of nothing"),
+ "Y-C08": ("C08", "StorageTransaction::set logs a write only if the layer below does not already hold that value: a key changed and later set back to the value below reads back right during the call but commits the overwritten value"),
+ "Y-C09": ("C09", "WasmKeeper::send skips the transfer of attached funds when sender == recipient: a contract calling itself with funds it does not own / all-zero funds is no longer refused (T-C05's site, written against C09)"),
+ "Y-C10": ("C10", "StorageTransaction::set returns early when the backing store already holds the value (T-C06 / U-C01 again, written against C10)"),
  "X-C20": ("C20", "AppBuilder::with_block copies chain_id only when it is non-empty: a supplied block with an empty chain id keeps the default one"),
  "W-C20": ("C20", "ContractWrapper::with_migrate_empty rebuilds the wrapper with reply_fn: None: a reply handler supplied before with_migrate_empty is lost"),
  "V-C20": ("C20", "ContractWrapper::with_checksum keeps the FIRST checksum (get_or_insert): only visible when with_checksum is applied twice with different values, which no subset / permutation of distinct steps does"),
@@ -129,7 +139,7 @@ def main(logs):
     res = {}
     for lg in logs:
         for line in open(lg):
-            m = re.match(r"^([STUVWX]-C\d+) (\S+)(?: (.*))?$", line.strip())
+            m = re.match(r"^([STUVWXY]-C\d+) (\S+)(?: (.*))?$", line.strip())
             if not m: continue
             sid, key, rest = m.group(1), m.group(2), m.group(3) or ""
             r = res.setdefault(sid, {"checks": {}, "verified": {}})
@@ -164,7 +174,7 @@ def main(logs):
         json.dump(meta, open(os.path.join(d, "meta.json"), "w"), indent=1)
         rows.append((sid, prop, "yes" if prop in detected else ("NO" if r["checks"] else "not run"), ", ".join(detected), trig))
     with open(os.path.join(ROOT, "seeded", "README.md"), "w") as f:
-        f.write("# Seeded property-breaking changes (from sub-agents)\n\nS-* = round 1, T-* = round 2, U-* = round 3, V-* = round 4, W-* = round 5, X-* = round 6 (from round 2 on the sub-agent was told the earlier changes as 'already taken'). Each directory holds `patch.diff` (apply with `git -C /repo apply`), the demonstration test `seed_demo.rs`, the sub-agent's `NOTES.md` and `meta.json`.\nAll were re-verified with `tools/selftest.sh` on a scratch copy of /repo: the baseline suite passes with the change, the demonstration passes without and fails with it.\n\n| seed | breaks | own check detects | all quick checks that fail | needs |\n|---|---|---|---|---|\n")
+        f.write("# Seeded property-breaking changes (from sub-agents)\n\nS-* = round 1, T-* = round 2, U-* = round 3, V-* = round 4, W-* = round 5, X-* = round 6, Y-* = round 7 (from round 2 on the sub-agent was told the earlier changes as 'already taken'). Each directory holds `patch.diff` (apply with `git -C /repo apply`), the demonstration test `seed_demo.rs`, the sub-agent's `NOTES.md` and `meta.json`.\nAll were re-verified with `tools/selftest.sh` on a scratch copy of /repo: the baseline suite passes with the change, the demonstration passes without and fails with it.\n\n| seed | breaks | own check detects | all quick checks that fail | needs |\n|---|---|---|---|---|\n")
         for row in rows:
             f.write("| %s | %s | %s | %s | %s |\n" % row)
     print("\n".join("%s %s own=%s all=[%s]" % r[:4] for r in rows))
